@@ -303,6 +303,7 @@ func specIsImmT(t ng_operand.OperandType) bool {
 //@ ensures[safe] true
 //@ ensures[in@C03] upperOpcode == "IN" ==> result0 == specB2I(specNeed66T(int(vcResult[cpu.BitMode]("GetBitMode", 0)), vcResult[[]ng_operand.OperandType]("OperandTypes", 0), 0))
 //@ ensures[out@C03] upperOpcode == "OUT" && len(vcResult[[]ng_operand.OperandType]("OperandTypes", 0)) > 1 && (vcResult[[]ng_operand.OperandType]("OperandTypes", 0)[0] == ng_operand.CodeDX || specIsImmT(vcResult[[]ng_operand.OperandType]("OperandTypes", 0)[0])) ==> result0 == specB2I(specNeed66T(int(vcResult[cpu.BitMode]("GetBitMode", 0)), vcResult[[]ng_operand.OperandType]("OperandTypes", 0), 1))
+//@ assigns OperandPegImpl.bitMode, OperandType[]
 
 //@ func hasAccumulator
 //@ props C13
